@@ -128,8 +128,12 @@ package cache
 //@ extern (*os.File).Close(f)
 //@   pure
 
+// fsyncN counts fsync calls by the current invocation.
+//@ ghost fsyncN Int
 //@ extern (*os.File).Sync(f)
 //@   pure
+//@   gmodifies fsyncN
+//@   gensures fsyncN == old(fsyncN) + 1
 
 //@ extern (*os.File).Seek(f, offset, whence)
 //@   pure
@@ -160,9 +164,62 @@ package cache
 //@   pure
 //@   ensures result != nil
 
+// Byte streams (abstract, prelude sort GBytes): rdStream / rdN are the bytes (and their number)
+// the current invocation consumed from its input reader through io.ReadFull, rdEOF tells
+// whether the last io.ReadFull ended with io.EOF (which io.ReadFull returns only when it read
+// nothing); hStream are the bytes fed to the running hash since it was created.
+//@ ghost rdStream GBytes
+//@ ghost rdN Int
+//@ ghost rdEOF Bool
+//@ ghost hStream GBytes
+
+// sync.Pool: Get yields an arbitrary value (call sites state what they assume about it).
+//@ extern (*sync.Pool).Get(p)
+//@   pure
+//@ extern (*sync.Pool).Put(p, x)
+//@   pure
+
+//@ modset ioState() =rdStream, rdN, rdEOF, hStream, bwN, fsyncN
+
 //@ extern io.ReadFull(r, buf)
 //@   modifies elems(buf)
 //@   ensures 0 <= result0 && result0 <= len(buf) && (result1 == nil ==> result0 == len(buf))
+//@   ensures (result1 == io.EOF) ==> result0 == 0
+//@   gmodifies rdStream, rdN, rdEOF
+//@   gensures rdN == old(rdN) + result0 && rdStream == sapp(old(rdStream), elems(buf), offset(buf), result0) && (rdEOF <==> (result1 == io.EOF))
+
+//@ extern crypto/sha256.New()
+//@   pure
+//@   ensures result != nil
+//@   gmodifies hStream
+//@   gensures hStream == sempty()
+
+// hash.Hash.Write (never fails, consumes all of p)
+//@ iface (io.Writer).Write(w, p)
+//@   pure
+//@   gmodifies hStream
+//@   gensures hStream == sapp(old(hStream), elems(p), offset(p), len(p))
+
+// hash.Hash.Sum(nil): a fresh slice holding the digest of what was written so far
+//@ iface (hash.Hash).Sum(h, b)
+//@   pure
+//@   ensures len(result) == 32 && sumsrc(arr(result)) == hStream
+
+//@ extern encoding/hex.EncodeToString(src)
+//@   pure
+//@   ensures result == hexsum(sumsrc(arr(src)))
+
+// ASSUMED: a write reports between 0 and len(b) bytes written.
+//@ extern (*os.File).Write(f, b)
+//@   pure
+//@   ensures 0 <= result0 && result0 <= len(b)
+
+// binary.Write: the bytes are not modelled; bwN counts calls (ordering of the header writes).
+//@ ghost bwN Int
+//@ extern encoding/binary.Write(w, order, data)
+//@   pure
+//@   gmodifies bwN
+//@   gensures bwN == old(bwN) + 1
 
 // Formatting and path joining are uninterpreted functions of their arguments:
 // enough to pin the format string, the order and the identity of the pieces.
